@@ -157,7 +157,7 @@ PROPS = {
                level="fault_enumeration", quick={"seconds": 40, "runs": 1200, "sweep": "err:4"}, thorough={"seconds": 1200, "runs": 40000, "sweep": "err:all"}),
     "C13": clu(_C + "while every create runs, Store.GetDeployStatus is evaluated at *every* scheduler step (everything else parked) against recorded workloads and the markers' initial values; one injected failure per history among the steps of deploying instances; concurrent histories checked at quiescence; " + _NT,
                level="fault_enumeration", quick={"seconds": 40, "runs": 1000, "sweep": "err:3"}, thorough={"seconds": 1200, "runs": 40000, "sweep": "err:all"},
-               probes=["c13_monitor_checks"]),
+               probes=["c13_monitor_checks", "c13_store_step_checked", "c13_store_instance_rolled_back"], harnesses=["cluster", "cluster", "cluster", "store"], sweep_only=["cluster"]),
     "C14": clu("one evaluation = a seeded prefix of 0-2 cluster calls, then one create (1-4 nodes, 1-3 instances, any strategy) during which the core process dies at one faultable seam step "
                "(quick: 6 sampled crash points per deployment after a measuring run; thorough: every crash point), 45 s of virtual time pass, a fresh instance opens the copied log file and runs DisasterRecover; "
                "non-trivial = the process really died inside the create; distinct = distinct seam-trace hash",
@@ -230,7 +230,7 @@ MANIFEST_TEXT = {
     "C10": {"text": "Whole-system simulation: real Calcium/cobalt/cpumem/Mercury/etcd-concurrency/WAL over simulated etcd and engines. After every operation of a sequential history (each history swept with single injected failures) and at quiescence of concurrent histories, every node's recorded usage must equal the sum of the workloads recorded on it and the node resource check must report no differences.", "note": _NOTE_CLU},
     "C11": {"text": "Fault enumeration over the seam calls of every operation kind: for each single failing step, the canonical snapshot of store, plugin records and engine containers after a call that reported failure must equal the snapshot before it (item-wise for multi-item calls; a failed replace keeps the old workload recorded and running).", "note": _NOTE_CLU},
     "C12": {"text": "For every create the result stream must close and carry either one failure with nothing created or exactly one message per instance of the plan the deployment executed; successes must be recorded, running and placed as reported, failures must leave no record, container or usage. With and without one injected failure.", "note": _NOTE_CLU},
-    "C13": {"text": "Step invariant evaluated by the scheduler at every step of every create (all goroutines parked, so the read is atomic): recorded <= GetDeployStatus <= prior + planned per node; after return the count equals the recorded workloads and no marker remains. Single injected failures among the instance-deployment steps.", "note": _NOTE_CLU + " etcd backend only in this check; the Redis backend's marker handling is covered by C23's differential check."},
+    "C13": {"text": "(A quarter of the workers run the marker protocol of a deployment directly against both stores - etcd and Redis - with instances failing before or after they are recorded, checking the same bounds after every step.) Step invariant evaluated by the scheduler at every step of every create (all goroutines parked, so the read is atomic): recorded <= GetDeployStatus <= prior + planned per node; after return the count equals the recorded workloads and no marker remains. Single injected failures among the instance-deployment steps.", "note": _NOTE_CLU + " The whole-system part runs on etcd only; the Redis backend's marker handling is covered by C23's differential check."},
     "C14": {"text": "Crash-point enumeration: the process is killed at each faultable seam step of a deployment (store, plugin, engine and log writes/commits), a fresh instance recovers from the shared store, engines and the real bbolt log file; afterwards usage == sum of workloads on every node, no marker of the interrupted deployment remains, every instance is recorded+started or absent from store and engine (except a container whose creating goroutine made no further step before the crash).", "note": _NOTE_CLU},
     "C20": {"text": "A store wrapper records every lock call per goroutine for every operation kind and adversarial node filters; pod locks must precede workload locks, each group strictly ascending, node-operation locks only with nothing else held; concurrent fault-free histories must not end in lock timeouts.", "note": _NOTE_CLU},
     "C21": {"text": "The node set an operation acts on (observed through DUMMY capacity with a request every node satisfies, and through plans) must equal a reference filter over the simulated store state, with node availability driven by heartbeat TTLs on the virtual clock.", "note": _NOTE_CLU + " No schedule or fault dimension in the property itself: invariant monitor inside simulated histories."},
